@@ -461,3 +461,47 @@ def blob_from_file_regenerates(crate):
         return True
     _check_paths(ex, res, outs, per_path)
     return P.finish(ex, res, ["rejected index, rebuilt", "no index file, rebuilt", "valid index file used"])
+
+
+def index_hash_checked(crate):
+    """C03: BPTreeFileIndex::validate_header (run when an index file is loaded into memory): Ok only if the header fields
+    validated AND the hash stored in the header equals the hash computed over the file image (with hash field and written
+    bit reset); a mismatch is reported as a validation error, so the index is rebuilt from the blob."""
+    res = P.ObResult("index_hash_checked")
+    fn = crate.method("BPTreeFileIndex", "validate_header")
+    res.functions = ["BPTreeFileIndex::validate_header (async body)", "BPTreeFileIndex::hash_valid"]
+    res.bounds = "one call, every outcome of validate / serialisation, hashes equal or not (SHA-256 itself is outside)"
+    equal = z3.Bool("stored_hash_equals_computed_hash")
+
+    def h_vec_eq(ex_, st_, frame, t, nf, args, dty):
+        st_.events.append(("hashcmp", nf, None, None))
+        return [(Sym(equal if nf.endswith("::eq") else z3.Not(equal), "bool"), None)]
+    ex = P.mk_executor(crate, cap=2, loop_bound=4, inline=[r"^BPTreeFileIndex::hash_valid$"],
+                       extra_summaries=[(r"^<Vec(<u8>)? as PartialEq(<.*>)?>::(eq|ne)$", h_vec_eq)],
+                       havoc=[r"^<.* as Clone>::clone$", r"^<\[u8\] as (std::ops::)?IndexMut<.*>>::index_mut$"])
+    st = State()
+    me = Obj("bptree::core::BPTreeFileIndex<K>")
+    mc = st.new_cell(me)
+    buf = Ref(st.new_cell(Obj("[u8]")), (), True, "&mut [u8]")
+    outs = P.drive_async(ex, st, fn, [Ref(mc, (), False, "&BPTreeFileIndex<K>"), buf, Sym(z3.BitVec("blob_size", 64), "u64")])
+    res.paths = len(outs)
+
+    def per_path(o, isok, payload):
+        evs = P.events_of(o)
+        val = [e for e in evs if e[1].endswith("FileIndexTrait>::validate") or e[1].endswith("::validate")]
+        cmps = [e for e in o.events if e[0] == "hashcmp"]
+        hashes = [e for e in evs if e[1].endswith("get_hash")]
+        if not P.prove(ex, res, o, z3.Implies(isok, z3.BoolVal(len(val) == 1 and len(cmps) == 1 and len(hashes) == 1)), "Ok => header fields validated, hash computed and compared"):
+            return False
+        if val:
+            v_ok = ex.get_discr(o, val[0][3]).t == BV64(0)
+            if not P.prove(ex, res, o, z3.Implies(isok, v_ok), "Ok => header fields valid"):
+                return False
+        if cmps:
+            if not P.prove(ex, res, o, z3.Implies(isok, equal), "Ok => stored hash equals the computed hash"):
+                return False
+            P.cover(ex, res, o, z3.And(z3.Not(isok), z3.Not(equal)), "hash mismatch rejected")
+        P.cover(ex, res, o, isok, "accepted")
+        return True
+    _check_paths(ex, res, outs, per_path)
+    return P.finish(ex, res, ["accepted", "hash mismatch rejected"])
